@@ -1243,3 +1243,187 @@ Proof.
   intros s t H. unfold parse_opt in H. destruct (parse s) as [t'| |] eqn:E; try discriminate. inversion H; subst.
   rewrite <- parse_m_parse in E. pose proof (parse_depth_ty s t E). pose proof (parse_depth_le_open_count s). lia.
 Qed.
+
+(* ================= 3. the two together: a closed quadratic bound for the reader ================= *)
+Local Open Scope N_scope.
+
+Lemma rdepth_obj_eq : rdepth_obj = 8.
+Proof. vm_compute. reflexivity. Qed.
+
+(* reader nesting against type depth: a map is two readers, "o" is eight *)
+Lemma rdepth_le_depth : forall t, rdepth t <= 2 * N.of_nat (ty_depth t) + 6.
+Proof.
+  unfold rdepth. rewrite rdepth_obj_eq.
+  induction t as [s|t' IH|tk tv IHk IHv|ts IH|name fs IH] using ty_ind2.
+  - destruct s; cbn [rdepth_g ty_depth]; lia.
+  - cbn [rdepth_g ty_depth]. lia.
+  - cbn [rdepth_g ty_depth]. lia.
+  - cbn [rdepth_g ty_depth].
+    enough (H : fold_right (fun t a => N.max (rdepth_g 1 8 t) a) 0 ts
+                <= 2 * N.of_nat (fold_right (fun t a => Nat.max (ty_depth t) a) 0%nat ts) + 6) by lia.
+    induction IH as [|t ts' Ht HF IH']; cbn [fold_right]; lia.
+  - cbn [rdepth_g ty_depth].
+    enough (H : fold_right (fun f a => N.max (rdepth_g 1 8 (snd f)) a) 0 fs
+                <= 2 * N.of_nat (fold_right (fun f a => Nat.max (ty_depth (snd f)) a) 0%nat fs) + 6) by lia.
+    induction IH as [|f fs' Hf HF IH']; cbn [fold_right]; lia.
+Qed.
+
+Lemma string_of_bytes_length : forall l, String.length (string_of_bytes l) = List.length l.
+Proof.
+  intro l. unfold string_of_bytes, string_of_list_byte.
+  induction l as [|b l IH]; [reflexivity|].
+  cbn [map string_of_list_ascii String.length List.length]. now rewrite IH.
+Qed.
+
+(* signature.Parse returns types whose reader nesting is at most twice the text, and 8 *)
+Lemma parse_opt_rdepth : forall s t, parse_opt s = Some t -> rdepth t <= 2 * N.of_nat (String.length s) + 8.
+Proof.
+  intros s t H. pose proof (parse_opt_depth s t H) as Hd. pose proof (open_count_le_length s) as Ho.
+  pose proof (rdepth_le_depth t) as Hr. lia.
+Qed.
+
+(* what a reader leaves is no longer than what it was given *)
+Lemma mok_rest : forall bs x, mok bs x -> match snd x with ROk (_, rest) => blen rest <= blen bs | _ => True end.
+Proof. intros bs [m [[d rest]|l| |]] H; unfold mok in H; cbn [fst snd] in *; try exact I. lia. Qed.
+
+Section NestLen.
+  Variable p : bytes -> mres bytes.
+  Variable R : N.
+  Hypothesis Hp : forall b, mok b (p b).
+  Hypothesis Hn : forall b, nesting (fst (p b)) <= R + 2 * blen b.
+
+  Lemma mrep_nat_nl : forall B k bs, R + 2 * blen bs <= B -> nesting (fst (mrep_nat p k bs)) <= B.
+  Proof.
+    intros B. induction k as [|k IH]; intros bs HB; cbn [mrep_nat]; [cbn; lia|].
+    pose proof (Hn bs) as Hx. pose proof (mok_rest bs _ (Hp bs)) as Hr.
+    destruct (p bs) as [m [[x rest]|l| |]]; cbn [fst snd] in Hx, Hr |- *; try lia.
+    pose proof (IH rest ltac:(lia)) as Hy. destruct (mrep_nat p k rest) as [m' r'].
+    cbn [fst madd charge nesting] in Hy |- *. lia.
+  Qed.
+
+  Lemma mrep_slow_nl : forall B fuel n bs acc ma, R + 2 * blen bs <= B -> nesting ma <= B ->
+    nesting (fst (mrep_slow p fuel n bs acc ma)) <= B.
+  Proof.
+    intros B. induction fuel as [|f IH]; intros n bs acc ma HB Hma; cbn [mrep_slow].
+    - destruct (n =? 0); exact Hma.
+    - destruct (n =? 0); [exact Hma|].
+      pose proof (Hn bs) as Hx. pose proof (mok_rest bs _ (Hp bs)) as Hr.
+      destruct (p bs) as [m [[d bs']|l| |]]; cbn [fst snd madd nesting] in Hx, Hr |- *; try lia.
+      destruct (Nat.ltb (List.length bs') (List.length bs)).
+      + apply IH; [lia|]. cbn [madd charge nesting]. lia.
+      + cbn [fst nesting]. lia.
+  Qed.
+
+  Lemma mvar_nl : forall bs, nesting (fst (mvar p bs)) <= (1 + R) + 2 * blen bs.
+  Proof.
+    intro bs. unfold mvar. destruct (read_num 4 bs) as [[n r]|l| |] eqn:E; try (cbn [fst nesting]; lia).
+    apply read_num_lens in E.
+    assert (Hr : nesting (fst (mrep p n r)) <= R + 2 * blen bs).
+    { unfold mrep. destruct (N.of_nat (List.length r) <? n).
+      - apply mrep_slow_nl; [lia|cbn; lia].
+      - apply mrep_nat_nl. lia. }
+    destruct (mrep p n r) as [m x]. cbn [fst deeper charge nesting] in Hr |- *. lia.
+  Qed.
+End NestLen.
+
+Lemma mseq_with_nl : forall R ps,
+  Forall (fun p : bytes -> mres bytes => (forall b, mok b (p b)) /\ forall b, nesting (fst (p b)) <= R + 2 * blen b) ps ->
+  forall B bs, R + 2 * blen bs <= B -> nesting (fst (mseq_with ps bs)) <= B.
+Proof.
+  intros R ps HF B. induction HF as [|p ps' [Hp Hn] HF' IH]; intros bs HB; cbn [mseq_with]; [cbn; lia|].
+  pose proof (Hn bs) as Hx. pose proof (mok_rest bs _ (Hp bs)) as Hr.
+  destruct (p bs) as [m [[x rest]|l| |]]; cbn [fst snd] in Hx, Hr |- *; try lia.
+  pose proof (IH rest ltac:(lia)) as Hy. destruct (mseq_with ps' rest) as [m' r'].
+  cbn [fst madd charge nesting] in Hy |- *. lia.
+Qed.
+
+Lemma mentry_nl : forall Rk Rv (pk pv : bytes -> mres bytes),
+  (forall b, mok b (pk b)) ->
+  (forall b, nesting (fst (pk b)) <= Rk + 2 * blen b) -> (forall b, nesting (fst (pv b)) <= Rv + 2 * blen b) ->
+  forall b, nesting (fst (mentry pk pv b)) <= (1 + N.max Rk Rv) + 2 * blen b.
+Proof.
+  intros Rk Rv pk pv Hk Hnk Hnv b. unfold mentry.
+  pose proof (Hnk b) as Hx. pose proof (mok_rest b _ (Hk b)) as Hr.
+  destruct (pk b) as [mk [[k r1]|l| |]]; cbn [fst snd deeper nesting] in Hx, Hr |- *; try lia.
+  pose proof (Hnv r1) as Hy. destruct (pv r1) as [mv [[v r2]|l| |]]; cbn [fst deeper madd charge nesting] in Hy |- *; lia.
+Qed.
+
+Section BodyNestLen.
+  Variable c : wcfg.
+  Hypothesis Hde : string_reader_drops_err c = false.
+  Variable dyn obj : bytes -> mres bytes.
+  Variable Do : N.
+  Hypothesis Hdyn : forall bs, mok bs (dyn bs).
+  Hypothesis Hobj : forall bs, mok bs (obj bs).
+  Hypothesis Hdn : forall b, nesting (fst (dyn b)) <= 1 + 2 * blen b.
+  Hypothesis Hon : forall b, nesting (fst (obj b)) <= Do.
+
+  Lemma sig_copy_body_nl : forall t bs, nesting (fst (sig_copy_body c dyn obj t bs)) <= rdepth_g 1 Do t + 2 * blen bs.
+  Proof.
+    induction t as [s|t' IH|tk tv IHk IHv|ts IH|name fs IH] using ty_ind2; intro bs.
+    - destruct s; cbn [sig_copy_body rdepth_g]; try (rewrite mleaf_nest; lia).
+      + apply Hdn.
+      + pose proof (Hon bs). lia.
+    - cbn [sig_copy_body rdepth_g]. apply mvar_nl; [|exact IH].
+      intro b. apply sig_copy_body_ok; assumption.
+    - cbn [sig_copy_body rdepth_g].
+      replace (2 + N.max (rdepth_g 1 Do tk) (rdepth_g 1 Do tv) + 2 * blen bs)
+        with ((1 + (1 + N.max (rdepth_g 1 Do tk) (rdepth_g 1 Do tv))) + 2 * blen bs) by lia.
+      apply mvar_nl.
+      + intro b. apply mentry_ok; intro b'; apply sig_copy_body_ok; assumption.
+      + apply mentry_nl; [intro b; apply sig_copy_body_ok; assumption|exact IHk|exact IHv].
+    - cbn [sig_copy_body rdepth_g]. unfold mcat. cbn [fst deeper nesting].
+      set (D := fold_right (fun t a => N.max (rdepth_g 1 Do t) a) 0 ts).
+      enough (H : nesting (fst (mseq_with (map (sig_copy_body c dyn obj) ts) bs)) <= D + 2 * blen bs) by lia.
+      apply (mseq_with_nl D); [|lia]. apply Forall_forall. intros q Hq. apply in_map_iff in Hq as (t & <- & Hin).
+      split; [intro b; apply sig_copy_body_ok; assumption|]. intro b. rewrite Forall_forall in IH.
+      pose proof (IH t Hin b) as Ht. pose proof (fold_max_in (rdepth_g 1 Do) ts t Hin) as Hm. fold D in Hm. lia.
+    - cbn [sig_copy_body rdepth_g]. unfold mcat. cbn [fst deeper nesting].
+      set (D := fold_right (fun f a => N.max (rdepth_g 1 Do (snd f)) a) 0 fs).
+      enough (H : nesting (fst (mseq_with (map (fun f => sig_copy_body c dyn obj (snd f)) fs) bs)) <= D + 2 * blen bs) by lia.
+      apply (mseq_with_nl D); [|lia]. apply Forall_forall. intros q Hq. apply in_map_iff in Hq as (f & <- & Hin).
+      split; [intro b; apply sig_copy_body_ok; assumption|]. intro b. rewrite Forall_forall in IH.
+      pose proof (IH f Hin b) as Ht. pose proof (fold_max_in (fun f => rdepth_g 1 Do (snd f)) fs f Hin) as Hm. fold D in Hm. lia.
+  Qed.
+End BodyNestLen.
+
+Section SigCopyNestLen.
+  Variable parse : string -> option ty.
+  Variable c : wcfg.
+  Hypothesis Hde : string_reader_drops_err c = false.
+  (* what signature.Parse satisfies (parse_opt_rdepth) *)
+  Hypothesis Hparse : forall s t, parse s = Some t -> rdepth t <= 2 * N.of_nat (String.length s) + 8.
+
+  Lemma mvalue_nl : forall inner : ty -> bytes -> mres bytes,
+    (forall t b, nesting (fst (inner t b)) <= rdepth t + 2 * blen b) ->
+    forall b, nesting (fst (mvalue parse c inner b)) <= 1 + 2 * blen b.
+  Proof.
+    intros inner Hin b. unfold mvalue. pose proof (read_str_lens b) as Hs.
+    destruct (read_str b) as [[sg r]|l| |]; try (cbn [mfail fst nesting]; lia).
+    destruct (parse (string_of_bytes sg)) as [t'|] eqn:E; [|cbn [mfail fst nesting]; lia].
+    apply Hparse in E. rewrite string_of_bytes_length in E. fold (blen sg) in E.
+    pose proof (Hin t' r) as Hr. destruct (inner t' r) as [m [[d r']|l| |]]; cbn [fst deeper charge nesting] in Hr |- *; lia.
+  Qed.
+
+  Lemma sig_copy_nl : forall fuel t bs, nesting (fst (sig_copy parse c fuel t bs)) <= rdepth t + 2 * blen bs.
+  Proof.
+    induction fuel as [|f IH]; intros t bs; cbn [sig_copy]; unfold rdepth.
+    - apply (sig_copy_body_nl c Hde _ _ rdepth_obj).
+      + intro b. apply mfail_ok. exact I.
+      + apply sig_copy_obj_ok. exact Hde.
+      + intro b. cbn [mfail fst nesting]. lia.
+      + intro b. apply sig_copy_obj_nest.
+    - apply (sig_copy_body_nl c Hde _ _ rdepth_obj).
+      + apply mvalue_ok; [exact Hde|]. intros t' b. apply sig_copy_ok. exact Hde.
+      + apply sig_copy_obj_ok. exact Hde.
+      + apply mvalue_nl. exact IH.
+      + intro b. apply sig_copy_obj_nest.
+  Qed.
+
+  (* CLOSED BOUND: the reader copies at most (nesting of the type + 2 |input|) * |input| bytes *)
+  Theorem sig_copy_quadratic : forall fuel t bs,
+    copied (fst (sig_copy parse c fuel t bs)) <= (rdepth t + 2 * blen bs) * blen bs.
+  Proof.
+    intros fuel t bs. apply (mul_le_l _ _ _ _ (sig_copy_bound_len parse c Hde fuel t bs)). apply sig_copy_nl.
+  Qed.
+End SigCopyNestLen.
